@@ -26,7 +26,8 @@ META = {
              'r_url and re-opened mid-history, sharded directories address'
              'ed through every URL spelling, contents that look like gzip '
              '/ zlib containers, absolute names inside sibling directories'
-             " whose names extend the dataset's."),
+             " whose names extend the dataset's."
+             " Round 12: a name that is a path prefix of another stored name (file / directory conflicts modelled)."),
     "trusted_base": ["dict model", "Python gzip module", "os.walk snapshots"],
     "assumptions": ["one MIME type per name for the whole history (as every "
                     "caller does)", "names never end in .gz"],
